@@ -107,10 +107,14 @@ fn check_case(name: &str, tree: &ENode, arg: &RV, unit: Unit, st: &mut Stats) {
                 BExpect::Error => st.count("reference-error"),
                 _ => {
                     st.count("reference-value");
-                    st.distinct("nontrivial", &(name, arg.key()));
+                    // every (name, argument) pair is enumerated exactly once
+                    st.count("nontrivial-distinct");
                 },
             }
-            st.distinct("outcomes", &(name, res_key(&result)));
+            match &result {
+                Ok(v) => st.distinct("outcomes", &(name, RV::from_ev(v).key())),
+                Err(e) => st.distinct("outcomes", &(name, format!("{:?}", e).split(|c: char| !c.is_alphanumeric()).next().unwrap_or("").to_string())),
+            }
             if !ok {
                 st.violation(Violation {
                     property: ID,
@@ -214,8 +218,8 @@ fn report(_cfg: &Cfg, stats: Stats, nargs: usize, unit: Unit) -> Report {
     Report {
         property: ID,
         level: "exploration",
-        rule: format!("complete matrix: 49 builtin names x {nargs} argument values (Empty; each pool value; every ordered pair of pool values as a 2-tuple; every ordered triple of a sub-pool as a 3-tuple), called as `f(x)` with x bound; plus every index pair (-1..=len+1)^2 of str::substring on four non-ASCII subjects with the len/substring consistency oracle; a case is non-trivial when the reference yields a value (not an error, not unclaimed); distinct by (name, argument)"),
-        nontrivial_set: "nontrivial",
+        rule: format!("complete matrix: 49 builtin names x {nargs} argument values (Empty; each pool value; every ordered pair of pool values as a 2-tuple; every ordered triple of a sub-pool as a 3-tuple), called as `f(x)` with x bound; plus every index pair (-1..=len+1)^2 of str::substring on four non-ASCII subjects with the len/substring consistency oracle; a case is non-trivial when the reference yields a value (not an error, not unclaimed); each (name, argument) pair is enumerated once"),
+        nontrivial_set: "counter:nontrivial-distinct",
         exhaustive: true,
         bound_completed: format!("{nargs} argument values x 49 names; indexing unit inferred from len: {:?}", unit),
         assumptions: vec![
